@@ -906,16 +906,18 @@ impl ExprCompiled {
         step: Option<IrSpanned<ExprCompiled>>,
         ctx: &mut OptCtx,
     ) -> ExprCompiled {
-        if let (Some(array), Some(start), Some(stop), Some(step)) = (
+        // Fold only when every operand is a constant: `as_value()` is `None` for a
+        // non-constant operand, which must not be confused with an absent operand.
+        if let (Some(array), Some(Some(start)), Some(Some(stop)), Some(Some(step))) = (
             array.as_builtin_value(),
             start.as_ref().map(|e| e.as_value()),
             stop.as_ref().map(|e| e.as_value()),
             step.as_ref().map(|e| e.as_value()),
         ) {
             if let Ok(v) = array.to_value().slice(
-                start.map(|v| v.to_value()),
-                stop.map(|v| v.to_value()),
-                step.map(|v| v.to_value()),
+                Some(start.to_value()),
+                Some(stop.to_value()),
+                Some(step.to_value()),
                 ctx.heap(),
             ) {
                 if let Some(v) = ExprCompiled::try_value(span, v, ctx.frozen_heap()) {
